@@ -212,6 +212,9 @@ func (c06) build(src *gen.Source) *Case {
 		c.Note = "token-string"
 		c.DFS = 2000
 	}
+	if c.Kind == "parse" && src.Chance(1, 8) {
+		c.SrcName = SrcNames[src.Intn(len(SrcNames))]
+	}
 	return c
 }
 
